@@ -473,10 +473,12 @@ func (x *Exec) cutLoop(st *State, ls *LoopSpec, id, label string, nodes []ast.No
 	h := st.clone()
 	assigned := map[types.Object]bool{}
 	eff := newEffects()
+	x.vc.pruneTerminal = true
 	for _, n := range nodes {
 		x.collectAssigned(n, assigned)
 		x.vc.effectsOfNode(eff, x.pkg, n, nil, map[*types.Func]bool{})
 	}
+	x.vc.pruneTerminal = false
 	var objs []types.Object
 	for o := range assigned {
 		if _, ok := h.vars[o]; ok {
@@ -665,6 +667,11 @@ func (x *Exec) unrolledFor(st *State, s *ast.ForStmt, label, id string) Flow {
 
 func (x *Exec) collectAssigned(n ast.Node, out map[types.Object]bool) {
 	ast.Inspect(n, func(n ast.Node) bool {
+		if x.vc.pruneTerminal {
+			if b, ok := n.(*ast.BlockStmt); ok && endsInReturn(b, x.info) {
+				return false
+			}
+		}
 		switch s := n.(type) {
 		case *ast.AssignStmt:
 			for _, l := range s.Lhs {
